@@ -92,17 +92,24 @@ LsFloatSlack(prec, m) == IF prec = "f32" THEN m \div LsP2(14) + 1 ELSE 1
 \* the same for a magnitude given as a product a * b (a large, 0 <= b small)
 LsFloatSlackMul(prec, a, b) == IF prec = "f32" THEN LsMulDiv(a, b, LsP2(14)) + 1 ELSE 1
 
-\* tolerance for  c . R = (something exact)
-LsOrthTol(c, Q2, M, prec) == (LsAbsDot(c, Q2) + 1) \div 2 + LsFloatSlack(prec, LsAbsDot(c, M))
+\* Norm-wise magnitude of the whole system, NM = sum_i (sum_k |X_ik| + 1) M_i.  The SVD
+\* based solvers are backward stable only norm-wise (the perturbation of one column is
+\* bounded by u ||X||, not by u times that column), so the f32 allowance of *every*
+\* component of the first-order conditions is taken relative to NM, not to the
+\* magnitudes of that component alone.
+LsNormMag(Q2, M) == LsAbsDot(Q2, M)
+
+\* tolerance for  c . R = (something exact): quantisation of W, B + floating-point allowance
+LsOrthTol(c, Q2, NM, prec) == (LsAbsDot(c, Q2) + 1) \div 2 + LsFloatSlack(prec, NM)
 
 \* ------------------------------------------------- OLS
-\* first-order conditions; R, M, Q2 are passed in so that TLC evaluates them once
-OlsNormalEq(X, R, M, Q2, prec) ==
+\* first-order conditions; R, NM, Q2 are passed in so that TLC evaluates them once
+OlsNormalEq(X, R, NM, Q2, prec) ==
     \A j \in 1..LsNCols(X) :
-        LET c == LsCol(X, j) IN LsAbs(LsDot(c, R)) <= LsOrthTol(c, Q2, M, prec)
+        LET c == LsCol(X, j) IN LsAbs(LsDot(c, R)) <= LsOrthTol(c, Q2, NM, prec)
 
-OlsSumZero(X, R, M, Q2, prec) ==
-    LET c == LsOnes(Len(X)) IN LsAbs(LsSum(R)) <= LsOrthTol(c, Q2, M, prec)
+OlsSumZero(X, R, NM, Q2, prec) ==
+    LET c == LsOnes(Len(X)) IN LsAbs(LsSum(R)) <= LsOrthTol(c, Q2, NM, prec)
 
 \* ------------------------------------------------- predict
 \* Yhat_i = X_i . W + B up to the quantisation of W, B and of Yhat itself
@@ -118,19 +125,21 @@ LsAlphaMul(aN, aE, v) == (aN * v) \div LsP2(aE)
 LsAlphaCeil(aN, aE)   == aN \div LsP2(aE) + 1
 
 \* normalisation off:  X_j . R = alpha W_j  and  B = 0
-RidgeRawGradient(X, W, R, M, Q2, aN, aE, prec) ==
+RidgeRawGradient(X, W, R, NM, Q2, aN, aE, prec) ==
     \A j \in 1..LsNCols(X) :
         LET c == LsCol(X, j)
             rhs == LsAlphaMul(aN, aE, W[j])
             \* alpha * (half a unit of W_j) + the floor above + float error of alpha*w
-            tolr == LsAlphaCeil(aN, aE) + 1 + LsFloatSlack(prec, LsAlphaCeil(aN, aE) * LsAbs(W[j]))
-        IN  LsAbs(LsDot(c, R) - rhs) <= LsOrthTol(c, Q2, M, prec) + tolr
+            tolr == LsAlphaCeil(aN, aE) + 1 + LsFloatSlack(prec, LsAlphaCeil(aN, aE) * LsAbsSum(W))
+        IN  LsAbs(LsDot(c, R) - rhs) <= LsOrthTol(c, Q2, NM, prec) + tolr
 
 RidgeRawIntercept(B) == LsAbs(B) <= 1
 
 \* normalisation on:  n (X_j - mu_j) . R  =  alpha W_j V_j / n   with V_j = n^2 sigma_j^2
 \* (both sides are the first-order condition of the standardised problem times n sigma_j)
-RidgeStdGradient(X, W, R, M, Q2, aN, aE, prec) ==
+\* (f64 only: the harness records no f32 fits with normalisation, because the norm-wise f32
+\* allowance of the standardised problem would need the ratios sigma_j / sigma_k)
+RidgeStdGradient(X, W, R, NM, Q2, aN, aE, prec) ==
     \A j \in 1..LsNCols(X) :
         LET n  == Len(X)
             c  == LsCentred(X, j)
@@ -144,7 +153,7 @@ RidgeStdGradient(X, W, R, M, Q2, aN, aE, prec) ==
             tolr == LsMulDiv(ac + 1, V, n) + 2
                     + LsFloatSlackMul(prec, ac * LsAbs(W[j]) + 1, LsColSq(X, j))
         IN  /\ V > 0
-            /\ LsAbs(LsDot(c, R) - rhs) <= LsOrthTol(c, Q2, M, prec) + tolr
+            /\ LsAbs(LsDot(c, R) - rhs) <= LsOrthTol(c, Q2, NM, prec) + tolr
 
 \* ------------------------------------------------- solver agreement
 \* Two solvers applied to the same full-rank problem return the same minimiser.  For the
